@@ -37,6 +37,8 @@ Cw = ("forall(lambda k: forall(0, n, lambda i: (k in self._where and i in self._
       " and forall(keys(self._where), lambda k: forall(self._where[k], lambda j: 0 <= j and j < n))")
 E = "forall(keys(self.size_dict), lambda k: self.size_dict[k] >= 1)"
 SIZES_WF = MC_WF.replace("self.", "self._sizes.")
+D_FLOPS = "self._flops == colsum(self.contractions, 3, len(self.contractions))"
+D_SIZES = "forall(lambda k: get(self._sizes._c, k, 0) == colcount(self.contractions, 2, k, len(self.contractions)))"
 
 remove = Contract(
     target="cotengra.slicer:ContractionCosts.remove",
@@ -48,6 +50,8 @@ remove = Contract(
         "inplace",
         "ix in self.size_dict and ix in self._where and ix in self._flop_reductions and ix in self._write_reductions",
         A, B, Cw, E, SIZES_WF,
+        # D: the tracked totals are the sum / the multiset over the contractions
+        D_FLOPS, D_SIZES,
     ],
     modifies=["self"],
     ensures=[
@@ -59,6 +63,8 @@ remove = Contract(
         "self.nslices == old(self.nslices) * old(self.size_dict[ix])",
         # the incremental figures equal the from-scratch definition over the reduced sets
         A, B,
+        # D again: predicted flops and the multiset of predicted sizes are those of the updated contractions
+        D_FLOPS, D_SIZES,
     ],
     ensures_rt=[
         # D (sum / multiset over an unordered visit: checked by the run-time monitor only)
@@ -80,6 +86,7 @@ remove = Contract(
                 "keys(cost.size_dict) == old(keys(self.size_dict)) and forall(keys(cost.size_dict), lambda k: cost.size_dict[k] == old(self.size_dict[k]))",
                 "cost.nslices == old(self.nslices) * d and d == old(self.size_dict[ix]) and d >= 1",
                 SIZES_WF.replace("self.", "cost."),
+                D_FLOPS.replace("self.", "cost."), D_SIZES.replace("self.", "cost."),
             ],
         ),
         1: Loop(seen="s1", inv=["ix in cost._flop_reductions and ix in cost._write_reductions"]),
@@ -112,3 +119,91 @@ def _gen(rng):
 
 
 remove.gen = _gen
+
+
+# ------------------------------------------------------------------ __init__
+# establishes the invariant that remove() preserves: C (where), D (totals)
+import z3 as _z3  # noqa: E402
+from ..pyvc.types import V as _V  # noqa: E402
+from .core_stats import _new_maxcounter  # noqa: E402
+
+WhereT.default = _V(Ty.Set(Ty.Int), [_z3.K(Ty.IntS, _z3.BoolVal(False))])
+
+
+def _defaultdict(engine, st, _args, node, kw):
+    """collections.defaultdict(lambda: 0) / collections.defaultdict(set): an empty map with that default"""
+    import ast
+
+    a = node.args[0]
+    if isinstance(a, ast.Lambda):
+        t = DefMap
+        v = _V(t, [_z3.K(Ty.IntS, _z3.BoolVal(False)), _z3.K(Ty.IntS, _z3.IntVal(0))])
+    elif isinstance(a, ast.Name) and a.id == "set":
+        t = WhereT
+        v = _V(t, [_z3.K(Ty.IntS, _z3.BoolVal(False)), _z3.K(Ty.IntS, _z3.K(Ty.IntS, _z3.BoolVal(False)))])
+    else:
+        from ..pyvc.engine import Unsupported
+
+        raise Unsupported("defaultdict of another factory")
+    return engine.alloc(st, v)
+
+
+_defaultdict.raw = True
+
+WHERE_T = ("forall(lambda k: forall(0, len(self.contractions), lambda i: (k in self._where and i in self._where[k]) == ({cond})))"
+           " and forall(keys(self._where), lambda k: forall(self._where[k], lambda j: 0 <= j and j < len(self.contractions)))")
+init = Contract(
+    target="cotengra.slicer:ContractionCosts.__init__",
+    props=["C07"],
+    self_type=CostsT,
+    params={"contractions": Ty.List(ConT), "size_dict": Ty.Map(Ty.Key, Ty.Int), "nslices": Ty.Int, "original_flops": Ty.NoneT},
+    requires=[
+        "forall(0, len(contractions), lambda i: subset(contractions[i][0], keys(size_dict)))",
+        "forall(keys(size_dict), lambda k: size_dict[k] >= 1)",
+    ],
+    externals={"collections.defaultdict": _defaultdict, "MaxCounter": _new_maxcounter},
+    modifies=["self"],
+    nloops=2,
+    loops={
+        0: Loop(
+            pos="t",
+            inv=[
+                "self._flops == colsum(self.contractions, 3, t)",
+                "forall(lambda k: get(self._sizes._c, k, 0) == colcount(self.contractions, 2, k, t))",
+                SIZES_WF,
+                WHERE_T.format(cond="i < t and k in self.contractions[i][0]"),
+            ],
+        ),
+        1: Loop(
+            seen="S",
+            inv=[WHERE_T.format(cond="(i < t and k in self.contractions[i][0]) or (i == t and k in S)")],
+        ),
+    },
+    ensures=[
+        "len(self.contractions) == len(contractions) and forall(0, len(contractions), lambda i: self.contractions[i] == contractions[i])",
+        "keys(self.size_dict) == keys(size_dict) and forall(keys(size_dict), lambda k: self.size_dict[k] == size_dict[k])",
+        "self.nslices == nslices and self.original_flops == self._flops",
+        # the invariant remove() relies on
+        D_FLOPS, D_SIZES, SIZES_WF,
+        WHERE_T.format(cond="k in self.contractions[i][0]"),
+    ],
+    assumptions=["collections.defaultdict(f): a dict whose missing keys read as f() (and are inserted by that read); original_flops=None variant"],
+)
+CONTRACTS.append(init)
+
+
+def _gen_init(rng):
+    import cotengra as ctg
+    from cotengra.slicer import ContractionCosts
+    from ..scope import random_tree_ssa
+
+    n = rng.randint(2, 5)
+    con = ctg.utils.rand_equation(n, 3, n_out=rng.randint(0, 2), n_hyper_in=(rng.randint(0, 1) if n >= 3 else 0), seed=rng.randint(0, 10**6), d_min=2, d_max=4)
+    tree = ctg.ContractionTree.from_path(con.inputs, con.output, con.size_dict, ssa_path=random_tree_ssa(n, rng))
+    src = ContractionCosts.from_contraction_tree(tree)
+    obj = object.__new__(ContractionCosts)
+    return {"self": obj, "args": (list(src.contractions), dict(src.size_dict), rng.randint(1, 3), None), "universe": list(con.size_dict) + list(range(-1, 400)),
+            "describe": f"{con.inputs}->{con.output} sizes {con.size_dict} path {tree.get_path()}"}
+
+
+init.gen = _gen_init
